@@ -4,7 +4,7 @@
  *   <rc> <N> <N_active> <N_allocated>
  * Protocol (see rv/c14.py asan_text):
  *   new tree box boundary integrator | add id hash xhex yhex zhex | rm i ks | rmh h ks | get h
- *   sethash i h | setactive k | setnvar k | rmall | integrate nsteps | end
+ *   sethash i h | setactive k | setnvar k | rmall | integrate nsteps | tupd | addvar | end
  */
 #include <stdio.h>
 #include <stdlib.h>
@@ -70,6 +70,10 @@ int main(void){
             sscanf(line, "%*s %lld", &a);
             r->dt = 1e-6;
             reb_simulation_steps(r, (unsigned int)a); rc = 0;
+        }else if (!strcmp(op,"addvar")){
+            rc = reb_simulation_add_variation_1st_order(r, -1);
+        }else if (!strcmp(op,"tupd")){
+            reb_simulation_update_tree(r); rc = 0;
         }else if (!strcmp(op,"rmall")){
             reb_simulation_remove_all_particles(r); rc = 0;
         }
